@@ -389,7 +389,7 @@ pub fn run(ctx: &mut Ctx) {
         let (mut store, _p) = new_store(backend, &scratch);
         let uni = Universe::new(&mut rng, 1);
         let other = Universe::new(&mut rng, 2);
-        let n = rng.range(2, 20);
+        let n = rng.range(2, if ctx.is_quick() { 20 } else { 36 });
         build_state(&mut rng, &mut store, &uni, &other, n);
         let ns = uni.ns.id();
         let dm = match dump(&mut store, ns) {
